@@ -62,6 +62,7 @@ class Contract:
     comp_assume: dict[str, str] = field(default_factory=dict)  # comprehension target -> ASSUMED fact about every element (trusted lemma, validated at run time)
     cuts: dict[str, dict[str, str]] = field(default_factory=dict)  # straight-line cut points: {source prefix of a top-level statement: {clause name: invariant}}
     asserts: dict[str, dict[str, str]] = field(default_factory=dict)  # {source prefix of a statement: {name: clause}}: proved on every path reaching the statement, then assumed (cut rule)
+    result_is: str | None = None  # for a PURE function: the specification expression its result equals (used where the call is implicit and element-wise, e.g. list ==)
     collector: str | None = None  # name of the local list the function appends its results to (standard collector invariant for its loops)
 
 
@@ -87,10 +88,11 @@ class Lemma:
     notes: str = ""
     trusted: bool = False  # an AXIOM about a library operation (validated at run time), instantiated by hints, never proved
     ih: list[str] = field(default_factory=list)  # induction hypotheses: available to the PROOF of the lemma only, never required of (or given to) a user of an instance
+    uses: list[str] = field(default_factory=list)  # instances of OTHER lemmas (hint syntax) assumed in the proof of this one
 
 
-def lemma(name, props, vars, hyps, goal, notes="", trusted=False, ih=()):
-    LEMMAS[name] = Lemma(name, props, vars, hyps, goal, notes, trusted, list(ih))
+def lemma(name, props, vars, hyps, goal, notes="", trusted=False, ih=(), uses=()):
+    LEMMAS[name] = Lemma(name, props, vars, hyps, goal, notes, trusted, list(ih), list(uses))
     return LEMMAS[name]
 
 
